@@ -34,8 +34,10 @@ func runC01x(c ProgCase) (*vstat.Failure, c01Result) {
 	src := c.Prog.Source()
 	const name = "c01.mtail"
 	trait := ""
-	if hasOtherwiseFirstInElse(c.Prog) {
-		trait = ":otherwise-first-in-else"
+	if hasOtherwiseInElse(c.Prog) {
+		trait = ":otherwise-in-else"
+	} else if hasRecursiveDecorator(c.Prog) {
+		trait = ":decorator-nested-in-itself"
 	}
 	obj, err := hx.Compile(name, src)
 	if err != nil {
@@ -115,6 +117,9 @@ func TestC01(t *testing.T) {
 		if st.IsLive("C01-1") {
 			feats.OtherwiseInElse = false
 		}
+		if st.IsLive("C01-5") {
+			feats.NoRecursiveDecorators = true
+		}
 		if st.IsLive("C01-2") {
 			feats.PinTypes = true
 		}
@@ -131,6 +136,9 @@ func TestC01(t *testing.T) {
 			c, g = genCase(rt, feats, 12)
 			if !feats.OtherwiseInElse {
 				st.Excluded("C01-1")
+			}
+			if feats.NoRecursiveDecorators {
+				st.Excluded("C01-5")
 			}
 			if feats.PinTypes {
 				st.Excluded("C01-2")
